@@ -39,16 +39,55 @@ RULE = ("cases: (1) exhaustive small scope: every leaf reader (DataFrameReader, 
         "0..4 (thorough 0..6) x buffer_type {DataFrame,Dicts,Records} x all append-size sequences over {0,1,2,3} of "
         "length <= 3 (thorough <= 4), random longer sequences, BufferedWriter constructed directly with size 1..3; "
         "emitted batches are observed as Parquet row groups, and (trace cases, CSV) the number of rows that reached "
-        "the file is read back after every append_data. distinct = distinct (entry, reader tree / writer "
-        "configuration, tables, chunk size, request); non-trivial = >= 2 rows and (>= 2 chunks or a composite "
+        "the file is read back after every append_data. "
+        "White-box review (both tiers; none of these changes the model's answer, which is computed from the table, the request "
+        "and the append sequence alone): (5) leaf variety: every suffix in CSV_SUFFIXES, unknown suffixes (.txt, .tsv, none, "
+        ".PARQUET: from_path / from_suffix fall back to delimited text), sep ',' ';' '|', Parquet files with IRREGULAR row groups "
+        "(one write_table call per group, empty groups included), DataFrameReader.from_series / from_array, frames with "
+        "object-dtype strings and int32/float32 columns, join_readers(), computed functions returning a list / an "
+        "index-carrying Series; cells: 2^53+1 / 2^62 integers, NaN floats, None strings, strings with tab, quote, "
+        "separator characters, newline, leading blank; (6) row labels: DataFrameReader over frames labelled otherwise "
+        "than 0..n-1 (reversed+offset, increasing with gaps, strings, duplicates, RangeIndex(10..), negative) alone, renamed, "
+        "computed, joined with frames of the same labels, n 0..4 (0..6) x every chunk size: the model numbers rows by "
+        "position, the harness maps position -> label before comparing; (7) repeated calls: the observed request "
+        "follows other requests on the same reader object (read all, full chunked pass, abandoned chunk iterator, another "
+        "projection, get_column_names) or the chunk iterator is consumed with next() and the reader is read whole in "
+        "between; (8) writers, one variation at a time over {.tab,.parquet} x b {0,2,3} x buffer kinds x 5 append "
+        "sequences, and 300 (1500) random combinations: sep; column_types (matching, wider: int as float64, large_string; numpy dtypes "
+        "for delimited text); a file already at the path (older table of the same layout, garbage bytes, a header whose last "
+        "line has no line end, an earlier session of the same writer object); driving style (with / initialize+finalize / "
+        "a with block left by an exception / auto_finalize over a list or dict view of two writers fed alternately / header by one writer object and rows "
+        "through a never-initialised second one / write(frame)); row labels of appended frames (reset, permuted, strings, all "
+        "equal); numpy scalars in dicts, a one-element list of dicts; the caller overwrites the object it has just appended; "
+        "an append whose columns come in another order (checked by the oracle alone: ValueError or the right rows); the "
+        "finalised file read back in chunks through a second associated reader; all suffixes; default arguments "
+        "(BufferedWriter(inner): 1000 rows, append sequences up to 2300 rows); column names with blanks, separators, digits, "
+        "'index', 'Unnamed: 0'; (9) finding streams (known_findings.json): Parquet files written by pandas with their row "
+        "labels, delimited-text string columns whose first rows look like numbers. "
+        "distinct = distinct (entry, reader tree / writer "
+        "configuration and variation, tables, chunk size, request, earlier requests); non-trivial = >= 2 rows and (>= 2 chunks or a composite "
         "reader or >= 2 appends)")
 ASSUMPTIONS = [
     "cell values are opaque: values are compared after the canonical mapping bool -> bool, int/float -> exact "
     "rational (so 1 and 1.0 are the same cell: CSV text and pd.concat(axis=1) padding cannot keep them apart), "
     "str -> str, NaN/None -> NaN; floats have <= 6 significant digits so that the text round trip is exact",
-    "DataFrameReader is driven with RangeIndex frames; column names within one base table are distinct and every base "
+    "column names within one base table are distinct and every base "
     "table has at least one column (a CSV file without columns cannot be parsed, pyarrow keeps no rows for a Parquet table "
-    "without columns)",
+    "without columns); frames with row labels other than 0..n-1 are used with DataFrameReader only in well-formed trees "
+    "all of whose leaves are frames carrying the same labels (pd.concat(axis=1) aligns on labels: frames with different "
+    "labels are not 'column-joined' row by row), duplicate labels only without a join; the model's positions are mapped to "
+    "labels by the harness",
+    "string cells are non-empty and do not look like numbers, booleans or NA markers ('', 'NA', 'nan', '1', 'True' change "
+    "their type in pandas' text round trip - outside what mokapot's code decides), except in the finding stream "
+    "csv:numeric-looking-strings-first; Records appends carry no None strings (numpy cannot promote such records)",
+    "a writer owns the path it is given from initialize() on: whatever was there before must not show in the finalised file; "
+    "a second writer object on the same path that is never initialised appends to it (delimited text only: mokapot's own "
+    "confidence code relies on it)",
+    "an appended frame / dict whose columns come in another order than the writer's may be refused with ValueError; if it is "
+    "accepted the values must come back under their own names (this class is judged by the property oracle, the model "
+    "has no notion of column order inside an append)",
+    "objects handed to append_data may be re-used by the caller afterwards (the DataFrame buffer deep-copies for this "
+    "reason); for the Dicts buffer this fails on the unchanged code: known finding buffered-writer:dicts-buffer-keeps-references",
     "negative chunk sizes are not modelled (the model's chunk size is a nat); chunk size 0 is",
     "Parquet record-batch lengths are an oracle recorded from pyarrow.ParquetFile.iter_batches(c) per case (once with "
     "a column projected, once with none: pyarrow 25 re-chunks across row groups only in the first case); the contract "
@@ -259,6 +298,9 @@ def encode(c):
         for s in c["sizes"]:
             ds.append(rows[pos:pos + s])
             pos += s
+        if (c.get("v") or {}).get("style") == "write":
+            # writer.write(frame): one append handed straight to the file writer, whatever the buffer settings
+            return ("c13.writer " + lib.z(0) + " 0 " + lib.lst([rows[:pos]], lambda d: lib.lst(d, lambda r: lib.lst(r))))
         return (f"c13.{fn} " + lib.z(c["b"]) + " " + str(KINDS.index(c["kind"])) + " "
                 + lib.lst(ds, lambda d: lib.lst(d, lambda r: lib.lst(r))))
     raise ValueError(fn)
@@ -279,7 +321,7 @@ def decode(c, t):
         return t.result(lambda: t.lst(lambda: _dec_frame(t)))
     if fn == "names":
         return ("ok", t.lst(t.nat))
-    if fn == "writer":
+    if fn == "writer" or (fn == "buffered" and (c.get("v") or {}).get("style") == "write"):
         def f():
             batches = t.lst(lambda: t.lst(lambda: t.lst(t.z)))
             pending = t.nat()
@@ -298,52 +340,142 @@ def decode(c, t):
 
 # ------------------------------------------------------------------------------------------------ real code
 _DT = {"i": "int64", "f": "float64", "s": "str", "b": "bool"}
+_DT_OBJ = {"i": "int64", "f": "float64", "s": "object", "b": "bool"}
+_PD_INDEX = "__index_level_0__"
+
+
+def _narrow_ok(ty, col):
+    import numpy as np
+    if ty == "i":
+        return all(-2 ** 31 < v < 2 ** 31 for v in col)
+    if ty == "f":
+        return all(v is not None and float(np.float32(v)) == float(v) for v in col)
+    return False
+
+
+def _series(ty, col, dt=None):
+    import pandas as pd
+    if ty == "f":
+        col = [float("nan") if v is None else v for v in col]
+    if dt == "object" and ty == "s":
+        return pd.Series(col, dtype="object")
+    if dt == "narrow" and ty in "if" and _narrow_ok(ty, col):
+        return pd.Series(col, dtype="int32" if ty == "i" else "float32")
+    return pd.Series(col, dtype=_DT[ty])
+
+
+def _index_of(tab, n):
+    """the row labels a table carries: None = the default RangeIndex"""
+    import pandas as pd
+    if tab.get("rstart") is not None:
+        return pd.RangeIndex(tab["rstart"], tab["rstart"] + n)
+    if tab.get("index") is not None:
+        return pd.Index(list(tab["index"]), dtype="object" if any(isinstance(x, str) for x in tab["index"]) else "int64")
+    return None
+
+
+def _labels_of(tab):
+    n = _nrows(tab)
+    if tab.get("rstart") is not None:
+        return list(range(tab["rstart"], tab["rstart"] + n))
+    if tab.get("index") is not None:
+        return list(tab["index"])
+    return None
 
 
 def _df(tab):
     import pandas as pd
     data = {}
     for n, ty, col in zip(tab["names"], tab["types"], tab["cols"]):
-        data[n] = pd.Series(col, dtype=_DT[ty])
-    return pd.DataFrame(data)
+        data[n] = _series(ty, col, tab.get("dt"))
+    df = pd.DataFrame(data)
+    idx = _index_of(tab, len(df))
+    if idx is not None:
+        df.index = idx
+    return df
 
 
-def _pa_types(tab):
+def _pa_types(tab, wide=False):
     import pyarrow as pa
     m = {"i": pa.int64(), "f": pa.float64(), "s": pa.string(), "b": pa.bool_()}
+    if wide:
+        m = {"i": pa.float64() if all(abs(v) < 2 ** 52 for ty, col in zip(tab["types"], tab["cols"]) if ty == "i" for v in col)
+             else pa.int64(), "f": pa.float64(), "s": pa.large_string(), "b": pa.bool_()}
     return [m[t] for t in tab["types"]]
 
 
-def _write_parquet(tab, rg):
+def _np_types(tab):
+    import numpy as np
+    m = {"i": np.dtype("int64"), "f": np.dtype("float64"), "s": np.dtype("O"), "b": np.dtype("bool")}
+    return [m[t] for t in tab["types"]]
+
+
+def _write_parquet(tab, rg, rgs=None, pdindex=False):
     import pyarrow as pa
     import pyarrow.parquet as pq
     p = _fresh(".parquet")
-    t = pa.Table.from_pandas(_df(tab), preserve_index=False)
+    if pdindex:
+        # written the way pandas does by default: the row labels are stored (as a column, or as RangeIndex metadata)
+        _df(tab).to_parquet(p, row_group_size=max(1, int(rg)))
+        return p
+    plain = {k: v for k, v in tab.items() if k not in ("index", "rstart")}
+    t = pa.Table.from_pandas(_df(plain), preserve_index=False)
+    if rgs is not None:
+        # row groups of the given (irregular, possibly zero) sizes: one write_table call per group
+        w = pq.ParquetWriter(p, t.schema)
+        pos = 0
+        for s in rgs:
+            w.write_table(t.slice(pos, s))
+            pos += s
+        w.close()
+        return p
     pq.write_table(t, p, row_group_size=max(1, int(rg)))
     return p
 
 
-def _func(fn):
+def _func(fn, ret=None):
+    """the function of a computed reader; ret = container of its result: None (numpy array), 'list', 'series' (a Series
+    carrying the index of the frame it was given: what df[x] * 2 would be)"""
     import numpy as np
+    import pandas as pd
     if fn[0] == "const":
         v = fn[1]
-        return lambda df: np.full(len(df), v, dtype=object)
-    if fn[0] == "copy":
+        base = lambda df: np.full(len(df), v, dtype=object)
+    elif fn[0] == "copy":
         n = fn[1]
-        return lambda df: df[n].to_numpy()
-    if fn[0] == "len":
+        base = lambda df: df[n].to_numpy()
+    elif fn[0] == "len":
         return lambda df: np.full(len(df), len(df))
-    v = fn[1]
-    return lambda df: [v]
+    else:
+        v = fn[1]
+        return lambda df: [v]
+    if ret == "list":
+        return lambda df: list(base(df))
+    if ret == "series":
+        return lambda df: pd.Series(base(df), index=df.index, dtype=object)
+    return base
 
 
 def _build(spec):
     import numpy as np
+    import pandas as pd
     from mokapot.tabular_data import TabularDataReader, DataFrameReader, ColumnMappedReader
-    from mokapot.streaming import JoinedTabularDataReader, ComputedTabularDataReader
+    from mokapot.streaming import JoinedTabularDataReader, ComputedTabularDataReader, join_readers
     k = spec["k"]
     if k == "frame":
-        return DataFrameReader(_df(spec["tab"]))
+        ctor = spec.get("ctor")
+        df = _df(spec["tab"])
+        if ctor and len(df.columns) == 1:
+            nm = df.columns[0]
+            if ctor == "series":                            # the name of the series is the column name
+                return DataFrameReader.from_series(df[nm])
+            if ctor == "series-name":                       # an explicit name overrides the series' own
+                return DataFrameReader.from_series(df[nm].rename("other"), name=nm)
+            if ctor == "array-np" and spec["tab"]["types"][0] != "s" and _labels_of(spec["tab"]) is None:
+                return DataFrameReader.from_array(df[nm].to_numpy(), nm)
+            if ctor == "array-list" and _labels_of(spec["tab"]) is None and None not in spec["tab"]["cols"][0]:
+                return DataFrameReader.from_array(list(spec["tab"]["cols"][0]), nm)
+        return DataFrameReader(df)
     if k in ("csv", "parquet"):
         cm = spec.get("_cmap")
         kw = {}
@@ -354,7 +486,7 @@ def _build(spec):
             if sep != "\t":
                 kw["sep"] = sep
         else:
-            p = _write_parquet(spec["tab"], spec.get("rg", 1))
+            p = _write_parquet(spec["tab"], spec.get("rg", 1), spec.get("rgs"), bool(spec.get("pdindex")))
         if cm is not None:
             return TabularDataReader.from_path(p, column_map=cm, **kw)
         return TabularDataReader.from_path(p, **kw)
@@ -365,27 +497,67 @@ def _build(spec):
             return _build(dict(inner, _cmap=cm))
         return ColumnMappedReader(_build(inner), cm)
     if k == "joined":
+        if spec.get("via") == "join_readers":
+            return join_readers([_build(r) for r in spec["rs"]])
         return JoinedTabularDataReader([_build(r) for r in spec["rs"]])
     if k == "computed":
-        return ComputedTabularDataReader(_build(spec["r"]), spec["col"], np.dtype("O"), _func(spec["fn"]))
+        return ComputedTabularDataReader(_build(spec["r"]), spec["col"], np.dtype("O"), _func(spec["fn"], spec.get("ret")))
     raise ValueError(k)
+
+
+def _lab(x):
+    """a row label as a JSON-able value: integers as int, strings as 's:...'"""
+    if isinstance(x, str):
+        return "s:" + x
+    return int(x)
 
 
 def _frame_out(ids, df):
     vals = df.to_numpy(dtype=object).tolist()
-    return [[int(i) for i in df.index], [ids.look_name(n) for n in df.columns],
+    return [[_lab(i) for i in df.index], [ids.look_name(n) for n in df.columns],
             [[ids.look_val(v) for v in r] for r in vals]]
+
+
+def _run_pre(r, pre):
+    """earlier requests on the SAME reader object (a reader is stateless: they must not change what follows)"""
+    for op in pre or []:
+        if op[0] == "read":
+            r.read(columns=op[1])
+        elif op[0] == "names":
+            r.get_column_names()
+        else:
+            it = r.get_chunked_data_iterator(chunk_size=op[1], columns=op[2])
+            if op[3] is None:
+                list(it)
+            else:                                           # an iterator that is abandoned after op[3] chunks
+                for _ in range(op[3]):
+                    if next(it, None) is None:
+                        break
 
 
 def _run_read(c):
     ids = _ids(c)
     r = _build(c["reader"])
+    _run_pre(r, c.get("pre"))
     return _frame_out(ids, r.read(columns=c["cols"]))
 
 
 def _run_chunks(c):
     ids = _ids(c)
     r = _build(c["reader"])
+    _run_pre(r, c.get("pre"))
+    if c.get("lazy"):                                       # consumed with next(), another reader object used in between
+        it = r.get_chunked_data_iterator(chunk_size=c["c"], columns=c["cols"])
+        out = []
+        while True:
+            try:
+                df = next(it)
+            except StopIteration:
+                break
+            out.append(_frame_out(ids, df))
+            if len(out) == 1:
+                r.read(columns=c["cols"])                   # the same reader asked for the whole table in between
+        return out
     return [_frame_out(ids, df) for df in r.get_chunked_data_iterator(chunk_size=c["c"], columns=c["cols"])]
 
 
@@ -394,50 +566,202 @@ def _run_names(c):
     return [ids.look_name(n) for n in _build(c["reader"]).get_column_names()]
 
 
-def _append_arg(kind, part, pos=0):
+class _Stop(Exception):
+    pass
+
+
+_GARBAGE = {"i": -7, "f": -0.125, "s": "CLOBBERED", "b": None}
+
+
+def _reindex_part(part, idx, pos):
+    """the row labels of an appended DataFrame (a writer stores rows, never labels)"""
+    n = len(part)
+    if idx == "reset":
+        return part.reset_index(drop=True)
+    if idx == "perm":
+        return part.set_axis([(37 * (pos + j) + 11) % 101 for j in range(n)], axis=0)
+    if idx == "str":
+        return part.set_axis([f"r{pos + j}" for j in range(n)], axis=0)
+    if idx == "dup":
+        return part.set_axis([0] * n, axis=0)
+    return part
+
+
+def _append_arg(kind, part, pos=0, v=None, j=0):
+    v = v or {}
+    names = list(part.columns)
+    perm = v.get("colperm") == j and len(names) > 1
     if kind == "DataFrame":
-        return part
+        part = _reindex_part(part.copy(), v.get("idx"), pos)
+        return part[names[::-1]] if perm else part
     if kind == "Dicts":
         recs = part.to_dict("records")
-        return recs[0] if len(recs) == 1 else recs
+        if v.get("dt") == "npscalar":                        # numpy scalars as values (what iterating over arrays gives)
+            cols = {n: part[n].to_numpy() for n in names}
+            recs = [{n: cols[n][r] for n in names} for r in range(len(part))]
+        if perm:
+            recs = [{n: d[n] for n in names[::-1]} for d in recs]
+        if len(recs) == 1 and not (v.get("one_as_list") and pos % 2 == 0):
+            return recs[0]
+        return recs
     if len(part) == 1 and (pos % 2 == 1 or len(part.columns) % 2 == 0):
         # a record built on its own (np.rec.fromrecords): its structured dtype is the narrowest that holds THIS row (string
         # fields as wide as this row's strings), so the dtypes of successive records differ; for tables with an even number of columns every record is built this way (the
         # first record then has narrow string fields), otherwise only those at odd positions
         import numpy as np
-        row = [v.item() if hasattr(v, "item") else v for v in part.iloc[0].tolist()]
+        row = [part[n].iloc[0] for n in part.columns]         # (column by column: a row Series would turn ints into floats)
+        row = [x.item() if hasattr(x, "item") else x for x in row]
         return np.rec.fromrecords([tuple(row)], names=list(part.columns))[0]
     rec = part.to_records(index=False)
     return rec[0] if len(rec) == 1 else rec
 
 
+def _clobber(kind, arg, tab):
+    """the caller re-uses the object it has just appended (fills it with the next values): the rows that were appended
+    must not change"""
+    import numpy as np
+    import pandas as pd
+    g = {n: _GARBAGE[t] for n, t in zip(tab["names"], tab["types"])}
+    if kind == "DataFrame":
+        for n in arg.columns:
+            val = g[n]
+            if val is None:
+                arg[n] = ~arg[n].to_numpy(dtype=bool)
+            else:
+                arg.loc[:, n] = val
+    elif kind == "Dicts":
+        for d in ([arg] if isinstance(arg, dict) else arg):
+            for n in list(d):
+                d[n] = (not d[n]) if g[n] is None else g[n]
+    else:
+        try:
+            for n in arg.dtype.names:
+                if g[n] is None:
+                    arg[n] = not arg[n]
+                elif not isinstance(g[n], str):
+                    arg[n] = g[n]
+        except Exception:
+            pass
+
+
+def _make_stale(p, how, tab, sep, is_pq):
+    """something is already at the path of the file a writer is about to create"""
+    if how == "garbage":
+        Path(p).write_bytes(b"left over\x00\xff bytes\nof another\tprogram\n\n")
+        return
+    df = _df({k: x for k, x in tab.items() if k not in ("index", "rstart")})
+    if how == "rows":                                        # an older result of the same layout
+        if is_pq:
+            df.to_parquet(p, index=False)
+        else:
+            df.to_csv(p, sep=sep or "\t", index=False)
+    elif how == "noeol":                                     # an older file whose last line has no line end
+        Path(p).write_text((sep or "\t").join(tab["names"]) + "\nold")
+
+
+def _open_writer(c, p, tab, v):
+    from mokapot.tabular_data import (TabularDataWriter, TableType, BufferedWriter, CSVFileWriter, ParquetFileWriter)
+    suffix = c["suffix"]
+    is_pq = suffix == ".parquet"
+    kw = {}
+    if is_pq:
+        kw["column_types"] = _pa_types(tab, v.get("ctypes") == "wide")
+    else:
+        if v.get("sep"):
+            kw["sep"] = v["sep"]
+        if v.get("ctypes"):
+            kw["column_types"] = _np_types(tab)
+    kind = TableType[c["kind"]]
+    if c["fn"] == "buffered":
+        inner = (ParquetFileWriter if is_pq else CSVFileWriter)(p, list(tab["names"]), **kw)
+        if v.get("defaults"):
+            return BufferedWriter(inner), kw
+        return BufferedWriter(inner, c["b"], kind), kw
+    if v.get("defaults"):
+        return TabularDataWriter.from_suffix(p, list(tab["names"]), **kw), kw
+    return TabularDataWriter.from_suffix(p, list(tab["names"]), buffer_size=c["b"], buffer_type=kind, **kw), kw
+
+
 def _run_writer(c):
     import pyarrow.parquet as pq
-    from mokapot.tabular_data import (TabularDataWriter, TableType, BufferedWriter, CSVFileWriter,
-                                      ParquetFileWriter)
+    from mokapot.tabular_data import TabularDataWriter, auto_finalize
     ids = _ids(c)
+    v = c.get("v") or {}
     tab = c["tab"]
     df = _df(tab)
     suffix = c["suffix"]
+    is_pq = suffix == ".parquet"
     p = _fresh(suffix)
-    kw = {}
-    if suffix == ".parquet":
-        kw["column_types"] = _pa_types(tab)
-    kind = TableType[c["kind"]]
-    if c["fn"] == "writer":
-        w = TabularDataWriter.from_suffix(p, list(tab["names"]), buffer_size=c["b"], buffer_type=kind, **kw)
-    else:
-        inner = (ParquetFileWriter if suffix == ".parquet" else CSVFileWriter)(p, list(tab["names"]), **kw)
-        w = BufferedWriter(inner, c["b"], kind)
-    with w:
+    if v.get("stale") in ("rows", "garbage", "noeol"):
+        _make_stale(p, v["stale"], tab, v.get("sep"), is_pq)
+    w, kw = _open_writer(c, p, tab, v)
+    style = v.get("style", "with")
+    total = sum(c["sizes"])
+
+    def appends(wr, second=None):
         pos = 0
-        for s in c["sizes"]:
-            w.append_data(_append_arg(c["kind"], df.iloc[pos:pos + s], pos))
+        for j, s in enumerate(c["sizes"]):
+            arg = _append_arg(c["kind"], df.iloc[pos:pos + s], pos, v, j)
+            wr.append_data(arg)
+            if v.get("alias"):
+                _clobber(c["kind"], arg, tab)
+            if second is not None:
+                second.append_data(df.iloc[pos:pos + s].copy())
             pos += s
-    out = w.get_associated_reader().read()
+
+    if v.get("stale") == "self":
+        # the same writer object has been used before: an earlier session wrote other rows to the same path
+        with w:
+            if c["kind"] == "DataFrame" or c["fn"] == "writer" and c["b"] <= 1:
+                w.append_data(df.iloc[::-1].reset_index(drop=True).copy())
+            elif c["kind"] == "Dicts":
+                w.append_data(df.iloc[::-1].to_dict("records"))
+            else:
+                for r in df.iloc[::-1].to_records(index=False):
+                    w.append_data(r)
+    companion = None
+    if style == "with":
+        with w:
+            appends(w)
+    elif style == "with-raise":
+        # the block is left by an exception after the appends: __exit__ finalises all the same
+        try:
+            with w:
+                appends(w)
+                raise _Stop()
+        except _Stop:
+            pass
+    elif style == "explicit":
+        w.initialize()
+        appends(w)
+        w.finalize()
+    elif style == "auto":
+        # auto_finalize over two writers that are fed alternately (mokapot writes its level files this way)
+        p2 = _fresh(".parquet" if not is_pq else ".tab")
+        kw2 = {"column_types": _pa_types(tab)} if not is_pq else {}
+        w2 = TabularDataWriter.from_suffix(p2, list(tab["names"]), buffer_size=2, **kw2)
+        ws = {"a": w, "b": w2}
+        with auto_finalize(ws.values() if total % 2 else [w, w2]):
+            appends(w, w2)
+        back = _frame_out(ids, w2.get_associated_reader().read())
+        want = [[ids.val(x) for x in r] for r in _rows(tab)][:total]
+        companion = back[2] == want and back[0] == list(range(total))
+    elif style == "handoff":
+        # the header is written by one writer object, the rows are appended through another one that is never
+        # initialised (mokapot.confidence / confidence_writer do this for their delimited-text result files)
+        first = TabularDataWriter.from_suffix(p, list(tab["names"]), **kw)
+        first.initialize()
+        appends(w)
+        w.finalize()
+    elif style == "write":
+        w.write(_reindex_part(df.iloc[:total].copy(), v.get("idx"), 0))
+    else:
+        raise ValueError(style)
+    rd = w.get_associated_reader()
+    out = rd.read()
     fr = _frame_out(ids, out)
     rows = fr[2]
-    if suffix == ".parquet":
+    if is_pq and style != "write":
         md = pq.ParquetFile(p).metadata
         sizes = [md.row_group(i).num_rows for i in range(md.num_row_groups)]
         batches, pos = [], 0
@@ -450,21 +774,32 @@ def _run_writer(c):
         batches = None
     buf = getattr(w, "buffer", None)
     pending = 0 if buf is None else len(buf)
-    return {"rows": rows, "batches": batches, "pending": pending, "index": fr[0], "names": fr[1]}
+    res = {"rows": rows, "batches": batches, "pending": pending, "index": fr[0], "names": fr[1]}
+    if companion is not None:
+        res["companion"] = companion
+    if v.get("rc"):
+        # the finalised file read back in chunks through the associated reader (a second one: readers are values)
+        chunks = [_frame_out(ids, ch) for ch in w.get_associated_reader().get_chunked_data_iterator(chunk_size=v["rc"])]
+        res["chunk_rows"] = [r for ch in chunks for r in ch[2]]
+        res["chunk_index"] = [x for ch in chunks for x in ch[0]]
+        res["chunk_lens"] = [len(ch[2]) for ch in chunks]
+    return res
 
 
 def _run_trace(c):
     """rows in the (CSV) file after every append_data and after finalize, through the associated reader"""
-    from mokapot.tabular_data import TabularDataWriter, TableType
+    v = c.get("v") or {}
     tab = c["tab"]
     df = _df(tab)
     p = _fresh(c["suffix"])
-    w = TabularDataWriter.from_suffix(p, list(tab["names"]), buffer_size=c["b"], buffer_type=TableType[c["kind"]])
+    if v.get("stale") in ("rows", "garbage", "noeol"):
+        _make_stale(p, v["stale"], tab, v.get("sep"), False)
+    w, _ = _open_writer(c, p, tab, v)
     out = []
     with w:
         pos = 0
-        for s in c["sizes"]:
-            w.append_data(_append_arg(c["kind"], df.iloc[pos:pos + s], pos))
+        for j, s in enumerate(c["sizes"]):
+            w.append_data(_append_arg(c["kind"], df.iloc[pos:pos + s], pos, v, j))
             pos += s
             out.append(len(w.get_associated_reader().read()))
     out.append(len(w.get_associated_reader().read()))
@@ -490,10 +825,58 @@ def impl(c):
     return _kind_fix(call_impl(_run_writer, c))
 
 
-def same(c, m, i):
+def _case_labels(c):
+    """the row labels of the frame leaves of a reader case (None: default 0..n-1); the generators give every leaf of a tree
+    the same labels"""
+    for leaf in _walk_tables(c["reader"]):
+        if leaf["k"] == "frame":
+            lab = _labels_of(leaf["tab"])
+            if lab is not None:
+                return [_lab(x) for x in lab]
+    return None
+
+
+def _model_view(c, m):
+    """the model numbers rows by position; a DataFrameReader over a frame with other row labels delivers the label of
+    that position"""
     m = lib.jsonable(m)
+    if c["fn"] not in ("read", "chunks") or m[0] != "ok":
+        return m
+    lab = _case_labels(c)
+    if lab is None:
+        return m
+
+    def f(fr):
+        return [[lab[k] if k < len(lab) else ["no such row", k] for k in fr[0]], fr[1], fr[2]]
+    return [m[0], f(m[1]) if c["fn"] == "read" else [f(x) for x in m[1]]]
+
+
+def _writer_extra_ok(c, out):
+    """what the harness observes on top of the read-back table: the companion writer of auto_finalize, the finalised
+    file read in chunks"""
+    n = len(out["rows"])
+    if out.get("companion") is False:
+        return "the second writer under auto_finalize did not get exactly its rows"
+    if "chunk_rows" in out:
+        if out["chunk_rows"] != out["rows"]:
+            return "the finalised file read in chunks differs from the file read whole"
+        if out["chunk_index"] != list(range(n)):
+            return f"the finalised file read in chunks: row index {out['chunk_index']}"
+        rc = (c.get("v") or {}).get("rc")
+        if any(x != rc for x in out["chunk_lens"][:-1]) or (n and 0 in out["chunk_lens"]):
+            return f"the finalised file read in chunks of {rc}: chunk lengths {out['chunk_lens']}"
+    return None
+
+
+def same(c, m, i):
+    m = _model_view(c, m)
     i = lib.jsonable(i)
     if c["fn"] in ("writer", "buffered"):
+        v = c.get("v") or {}
+        if v.get("colperm") is not None and m[0] == "ok" and i[0] == "err":
+            # an appended frame / dict whose columns come in another order: the writer may refuse it (ValueError) but
+            # must never store values under the wrong name
+            return i[1] == "ValueError"
         if m[0] != i[0]:
             return False
         if m[0] == "err":
@@ -509,7 +892,7 @@ def same(c, m, i):
             return False
         if out["batches"] is not None and out["batches"] != batches:
             return False
-        return True
+        return _writer_extra_ok(c, out) is None
     return m == i
 
 
@@ -648,23 +1031,32 @@ def oracle(c, i):
             return f"the finalised file holds {i[1][-1]} rows, {sum(c['sizes'])} were appended"
         return None
     if fn in ("writer", "buffered"):
-        if c["kind"] == "Records" and any(s != 1 for s in c["sizes"]):
+        one_shot = (c.get("v") or {}).get("style") == "write"
+        if c["kind"] == "Records" and any(s != 1 for s in c["sizes"]) and not one_shot:
             return None
-        if fn == "writer" and c["b"] <= 1 and c["kind"] != "DataFrame":
+        if fn == "writer" and c["b"] <= 1 and c["kind"] != "DataFrame" and not one_shot:
             return None
-        if fn == "buffered" and c["b"] < 1:
+        if fn == "buffered" and c["b"] < 1 and not one_shot:
             return None
         rows = [[ids.val(v) for v in r] for r in _rows(c["tab"])][:sum(c["sizes"])]
+        v = c.get("v") or {}
+        if v.get("colperm") is not None and i == ["err", "ValueError"]:
+            return None                                     # refused aloud: nothing was stored under a wrong name
         if i[0] != "ok":
             return f"writing and reading back raised {i[1]}"
         out = i[1]
+        if out["names"] != list(range(len(c["tab"]["names"]))):
+            return f"columns of the read-back table: {out['names']!r}"
+        extra = _writer_extra_ok(c, out)
+        if extra:
+            return extra
         if out["rows"] != rows:
             return f"read back rows differ from the appended rows: {out['rows']!r} vs {rows!r}"
         if out["index"] != list(range(len(rows))):
             return f"index of the read-back table is {out['index']!r}"
         if out["pending"] != 0:
             return f"{out['pending']} rows still in the buffer after finalize"
-        if out["batches"] is not None and c["b"] > 1 or fn == "buffered":
+        if (out["batches"] is not None and c["b"] > 1 or fn == "buffered") and v.get("style") != "write":
             bs = out["batches"]
             if bs is not None and any(len(x) != c["b"] for x in bs[:-1]):
                 return f"an emitted batch other than the last one has not buffer_size rows: {[len(x) for x in bs]}"
@@ -678,13 +1070,16 @@ def oracle(c, i):
     exp_names = [ids.name(x) for x in cols]
     if i[0] != "ok":
         return f"{fn} raised {i[1]} on a well-formed request"
+    exp_index = _case_labels(c)
+    if exp_index is None:
+        exp_index = list(range(len(exp_rows)))
     if fn == "read":
         idx, nm, rw = i[1]
         if nm != exp_names:
             return f"read: columns {nm} instead of {exp_names}"
         if rw != exp_rows:
             return f"read: rows differ from the table: {rw!r} vs {exp_rows!r}"
-        if idx != list(range(len(exp_rows))):
+        if idx != exp_index:
             return f"read: index {idx}"
         return None
     chunks = i[1]
@@ -695,7 +1090,7 @@ def oracle(c, i):
     if cat != exp_rows:
         return f"concatenated chunks differ from the table: {len(cat)} rows vs {len(exp_rows)}: {cat!r} vs {exp_rows!r}"
     idx = [x for ch in chunks for x in ch[0]]
-    if idx != list(range(len(exp_rows))):
+    if idx != exp_index:
         return f"the row index does not continue across chunks: {[ch[0] for ch in chunks]}"
     if any(len(ch[2]) != c["c"] for ch in chunks[:-1]):
         return f"a chunk other than the last has not chunk_size rows: {[len(ch[2]) for ch in chunks]}"
@@ -726,13 +1121,13 @@ _BL_CACHE = {}
 def _record_batches(spec, c):
     """pyarrow's record-batch lengths for chunk size c (the oracle of TrParquet), with its contract"""
     import pyarrow.parquet as pq
-    key = lib.stable_hash([spec["tab"], spec.get("rg", 1), c])
+    key = lib.stable_hash([spec["tab"], spec.get("rg", 1), spec.get("rgs"), spec.get("pdindex"), c])
     if key in _BL_CACHE:
         return _BL_CACHE[key]
     if c < 1:
         bl, bl0 = [], []
     else:
-        p = _write_parquet(spec["tab"], spec.get("rg", 1))
+        p = _write_parquet(spec["tab"], spec.get("rg", 1), spec.get("rgs"), bool(spec.get("pdindex")))
         pf = pq.ParquetFile(p)
         bl = [int(b.num_rows) for b in pf.iter_batches(c)]
         bl0 = [int(b.num_rows) for b in pf.iter_batches(c, columns=[])]
@@ -742,7 +1137,7 @@ def _record_batches(spec, c):
         n = _nrows(spec["tab"])
         _ORACLE_CHECKS[0] += 1
         if sum(bl) != n or any(x != c for x in bl[:-1]) or any(x == 0 for x in bl) or one != bl or first != bl or sum(bl0) != n:
-            _ORACLE_FAILS.append({"what": f"pyarrow iter_batches({c}) on {n} rows, row groups of {spec.get('rg')}: "
+            _ORACLE_FAILS.append({"what": f"pyarrow iter_batches({c}) on {n} rows, row groups of {spec.get('rgs') or spec.get('rg')}: "
                                           f"batch lengths {bl} (last column: {one}, first column: {first}, no column: {bl0}) break the "
                                           "contract (all but the last = c, none empty, independent of a non-empty "
                                           "projection, sum = n)",
@@ -760,21 +1155,31 @@ def fix_oracles(case):
     return case
 
 
-_STR = ["x", "y z", "a,b", "q", "Pep_1", "α", "k-2", "0x", "t.5"]
+_STR = ["x", "y z", "a,b", "q", "Pep_1", "α", "k-2", "0x", "t.5", "t\tab", 'q"t', "se;mi", "pi|pe", "l1\nl2", " lead", "'ap"]
+ALL_CSV_SUFFIXES = [".csv", ".pin", ".tab", ".peptides", ".psms", ".proteins", ".modifiedpeptides", ".peptidegroups",
+                    ".modified_peptides", ".peptide_groups", ".precursors"]
+UNKNOWN_SUFFIXES = [".txt", ".tsv", "", ".PARQUET", ".csv.gzz"]          # from_path / from_suffix fall back to delimited text
+FANCY_NAMES = ["col one", "a,b", "se;mi", "1", "2.5", "index", "level_0", "Unnamed: 0", "ÜberScore", "q-value", "x.y", "T\tab"]
 
 
-def mk_table(rng, names, n, types=None):
+def mk_table(rng, names, n, types=None, big=True, nans="fs"):
+    """random table.  big: integer columns may hold 2^53+1 / 2^62 (exact only as long as nothing turns them into floats);
+    nans: 'f' float columns may hold NaN, 's' string columns may hold None (both are 'NaN' cells)"""
     types = types or [rng.choice("ifsb") for _ in names]
     cols = []
     for k, (nm, ty) in enumerate(zip(names, types)):
         if ty == "i":
-            base = rng.choice([0, 100, 65, 10 ** 6])
+            base = rng.choice([0, 100, 65, 10 ** 6] + ([2 ** 53 + 1, 2 ** 62, -(2 ** 53) - 1] if big else []))
             col = [base + (j if rng.random() < 0.8 else rng.randint(0, 2)) for j in range(n)]
         elif ty == "f":
             sc = 10 ** rng.randint(0, 3)
             col = [rng.randint(-9999, 99999) / sc if rng.random() < 0.85 else 0.5 for _ in range(n)]
+            if "f" in nans and rng.random() < 0.3:
+                col = [None if rng.random() < 0.3 else x for x in col]
         elif ty == "s":
             col = [f"{rng.choice(_STR)}{nm}{j if rng.random() < 0.8 else 0}" for j in range(n)]
+            if "s" in nans and rng.random() < 0.25:
+                col = [None if rng.random() < 0.3 else x for x in col]
         else:
             col = [rng.random() < 0.5 for _ in range(n)]
         cols.append(col)
@@ -841,7 +1246,57 @@ def _case(fn, reader, cols, c=None, tags=()):
     if fn == "chunks":
         n = max([_nrows(t["tab"]) for t in _walk_tables(reader)] or [0])
         d["tags"].append("c>n" if c > n else ("c=n" if c == n else ("c|n" if c and n % c == 0 else "c<n")))
+    for leaf in _walk_tables(reader):
+        if leaf["k"] == "parquet" and leaf.get("rgs") is not None:
+            d["tags"].append("parquet:irregular-row-groups" + ("+empty" if 0 in leaf["rgs"] else ""))
+        if leaf["k"] == "csv":
+            d["tags"].append("csv-sep:" + repr(leaf.get("sep", "\t")))
+            d["tags"].append("csv-suffix:" + ("known" if leaf.get("suffix", ".tab") in ALL_CSV_SUFFIXES else "unknown"))
+        if leaf["k"] == "frame":
+            if leaf.get("ctor"):
+                d["tags"].append("frame-ctor:" + leaf["ctor"])
+            if _labels_of(leaf["tab"]) is not None:
+                d["tags"].append("frame:row-labels")
+        if leaf["tab"].get("dt"):
+            d["tags"].append("dtype:" + leaf["tab"]["dt"])
+    d["tags"] = sorted(set(d["tags"]), key=d["tags"].index)
     return fix_oracles(d)
+
+
+def _with_pre(case, pre=None, lazy=False, tag=None):
+    """the same request, but the reader object has been used before (or is used in between)"""
+    d = copy.deepcopy(case)
+    if pre:
+        d["pre"] = pre
+    if lazy:
+        d["lazy"] = True
+    d["tags"] = [t for t in d["tags"] if t != "exhaustive"] + ["repeated-call", "pre:" + (tag or "lazy")]
+    return d
+
+
+def det_rgs(n, k=0):
+    """deterministic irregular row-group sizes that sum to n, empty groups included"""
+    pat = [[1, 0, 2, 3, 0, 1], [0, 3, 1, 1, 0, 2], [2, 2, 0, 1, 3]][k % 3]
+    out, left, j = [], n, 0
+    while left > 0:
+        x = min(pat[j % len(pat)], left)
+        out.append(x)
+        left -= x
+        j += 1
+    return out + [0]
+
+
+def rand_rgs(rng, n):
+    out, left = [], n
+    while left > 0:
+        x = min(rng.choice([0, 1, 1, 2, 3, left]), left)
+        out.append(x)
+        left -= x
+    if rng.random() < 0.3:
+        out.append(0)
+    if rng.random() < 0.2:
+        out.insert(0, 0)
+    return out
 
 
 def _leaf_variants(tab, n, thorough):
@@ -849,10 +1304,14 @@ def _leaf_variants(tab, n, thorough):
            ("csv.tab", _leaf("csv", tab, suffix=".tab")),
            ("csv,", _leaf("csv", tab, suffix=".csv", sep=",")),
            ("parquet.rg1", _leaf("parquet", tab, rg=1)),
-           ("parquet.rg2", _leaf("parquet", tab, rg=2))]
+           ("parquet.rg2", _leaf("parquet", tab, rg=2)),
+           ("parquet.rgs", _leaf("parquet", tab, rgs=det_rgs(n, n))),
+           ("csv.txt;", _leaf("csv", tab, suffix=".txt", sep=";"))]
     if thorough:
         out += [("parquet.rgn", _leaf("parquet", tab, rg=max(1, n))),("csv.tsv", _leaf("csv", tab, suffix=".tsv")), ("csv.csv", _leaf("csv", tab, suffix=".csv")),
-                ("parquet.rg3", _leaf("parquet", tab, rg=3))]
+                ("parquet.rg3", _leaf("parquet", tab, rg=3)), ("parquet.rgs'", _leaf("parquet", tab, rgs=det_rgs(n, n + 1))),
+                ("csv.psms|", _leaf("csv", tab, suffix=".psms", sep="|")), ("csv.nosuffix", _leaf("csv", tab, suffix="")),
+                ("frame.object", _leaf("frame", dict(tab, dt="object"))), ("frame.narrow", _leaf("frame", dict(tab, dt="narrow")))]
     return out
 
 
@@ -872,54 +1331,186 @@ def gen_exhaustive(ctx):
             cases.append({"fn": "names", "reader": leaf, "tags": ["names"]})
     # composite readers over the small tables, exhaustively over n and c
     for n in range(0, (6 if ctx.thorough else 4) + 1):
-        ta, tb, tc = plain_table(["a", "b"], n), plain_table(["c", "d", "e"], n, 7), plain_table(["g"], n, 3)
-        comps = {
-            "mapped(frame)": ({"k": "mapped", "r": _leaf("frame", ta), "map": [["a", "A"], ["zz", "Q"]]},
-                              [None, ["b", "A"], ["A"]]),
-            "mapped(csv,from_path)": ({"k": "mapped", "via": "from_path", "r": _leaf("csv", tb, suffix=".tab"),
-                                       "map": [["c", "d"], ["d", "c"]]}, [None, ["e", "c"], ["d", "c", "e"]]),
-            "mapped(parquet,from_path)": ({"k": "mapped", "via": "from_path", "r": _leaf("parquet", tb, rg=2),
-                                           "map": [["e", "E"]]}, [None, ["E", "c"]]),
-            "joined(frame,csv)": ({"k": "joined", "rs": [_leaf("frame", ta), _leaf("csv", tb, suffix=".tab")]},
-                                  [None, ["d", "a", "c"], ["e", "b"], ["a"], ["d"]]),
-            "joined(parquet,frame,csv)": ({"k": "joined", "rs": [_leaf("parquet", tb, rg=2), _leaf("frame", ta),
-                                                                  _leaf("csv", tc, suffix=".csv", sep=",")]},
-                                          [None, ["g", "a", "e"], ["b", "c"]]),
-            "joined(one)": ({"k": "joined", "rs": [_leaf("frame", ta)]}, [None, ["b"]]),
-            "computed(frame,const)": ({"k": "computed", "r": _leaf("frame", ta), "col": "k", "fn": ["const", True]},
-                                      [None, ["k", "b", "a"], ["a"], ["k"]]),
-            "computed(csv,const)": ({"k": "computed", "r": _leaf("csv", tb, suffix=".tab"), "col": "k",
-                                     "fn": ["const", "dec"]}, [None, ["e", "k"], ["k"], ["c", "d"]]),
-            "computed(parquet,copy)": ({"k": "computed", "r": _leaf("parquet", tb, rg=1), "col": "k",
-                                        "fn": ["copy", "d"]}, [None, ["k", "d"], ["d", "c", "k"], ["k", "c"]]),
-            "computed(mapped(csv))": ({"k": "computed", "col": "is_decoy", "fn": ["const", False],
-                                       "r": {"k": "mapped", "via": "from_path", "r": _leaf("csv", tb, suffix=".psms"),
-                                             "map": [["c", "score"]]}},
-                                      [None, ["score", "is_decoy"], ["is_decoy", "e", "score", "d"], ["e", "d"]]),
-            "joined(computed,mapped)": ({"k": "joined", "rs": [
-                {"k": "computed", "r": _leaf("frame", ta), "col": "k", "fn": ["copy", "a"]},
-                {"k": "mapped", "r": _leaf("parquet", tb, rg=3), "map": [["d", "D"]]}]},
-                [None, ["D", "k", "a"], ["a", "k", "c", "e"], ["k", "D"], ["c", "a"]]),
-            # computed readers nested in each other, under a renaming and over a join
-            "computed(computed(csv))": ({"k": "computed", "col": "k2", "fn": ["copy", "k"], "r": {
-                "k": "computed", "r": _leaf("csv", tb, suffix=".tab"), "col": "k", "fn": ["copy", "c"]}},
-                [None, ["k2", "k", "c"], ["c", "k"], ["e", "d"]]),
-            "mapped(computed(parquet))": ({"k": "mapped", "map": [["k", "K"], ["c", "C"]], "r": {
-                "k": "computed", "r": _leaf("parquet", tb, rg=2), "col": "k", "fn": ["const", 2.5]}},
-                [None, ["K", "C"], ["d", "C"]]),
-            "computed(mapped(joined(computed(frame),csv)))": ({"k": "computed", "col": "top", "fn": ["copy", "K"], "r": {
-                "k": "mapped", "map": [["k", "K"], ["g", "G"]], "r": {"k": "joined", "rs": [
-                    {"k": "computed", "r": _leaf("frame", ta), "col": "k", "fn": ["copy", "b"]},
-                    _leaf("csv", tc, suffix=".tab")]}}},
-                [None, ["top", "K", "b", "G"], ["G", "a"], ["K", "b", "G"]]),
-        }
-        for label, (rd, reqs2) in comps.items():
+        for label, (rd, reqs2) in _small_trees(n).items():
             for cols in reqs2:
                 tg = ["exhaustive", "tree:" + label, f"n={n}", "cols=None" if cols is None else f"ncols={len(cols)}"]
                 cases.append(_case("read", rd, cols, tags=tg))
                 for c in range(1, n + 2):
                     cases.append(_case("chunks", rd, cols, c, tags=tg))
             cases.append({"fn": "names", "reader": rd, "tags": ["names"]})
+    return cases
+
+
+def _small_trees(n):
+    ta, tb, tc = plain_table(["a", "b"], n), plain_table(["c", "d", "e"], n, 7), plain_table(["g"], n, 3)
+    comps = {
+        "mapped(frame)": ({"k": "mapped", "r": _leaf("frame", ta), "map": [["a", "A"], ["zz", "Q"]]},
+                          [None, ["b", "A"], ["A"]]),
+        "mapped(csv,from_path)": ({"k": "mapped", "via": "from_path", "r": _leaf("csv", tb, suffix=".tab"),
+                                   "map": [["c", "d"], ["d", "c"]]}, [None, ["e", "c"], ["d", "c", "e"]]),
+        "mapped(parquet,from_path)": ({"k": "mapped", "via": "from_path", "r": _leaf("parquet", tb, rg=2),
+                                       "map": [["e", "E"]]}, [None, ["E", "c"]]),
+        "joined(frame,csv)": ({"k": "joined", "rs": [_leaf("frame", ta), _leaf("csv", tb, suffix=".tab")]},
+                              [None, ["d", "a", "c"], ["e", "b"], ["a"], ["d"]]),
+        "joined(parquet,frame,csv)": ({"k": "joined", "rs": [_leaf("parquet", tb, rg=2), _leaf("frame", ta),
+                                                              _leaf("csv", tc, suffix=".csv", sep=",")]},
+                                      [None, ["g", "a", "e"], ["b", "c"]]),
+        "joined(one)": ({"k": "joined", "rs": [_leaf("frame", ta)]}, [None, ["b"]]),
+        "computed(frame,const)": ({"k": "computed", "r": _leaf("frame", ta), "col": "k", "fn": ["const", True]},
+                                  [None, ["k", "b", "a"], ["a"], ["k"]]),
+        "computed(csv,const)": ({"k": "computed", "r": _leaf("csv", tb, suffix=".tab"), "col": "k",
+                                 "fn": ["const", "dec"]}, [None, ["e", "k"], ["k"], ["c", "d"]]),
+        "computed(parquet,copy)": ({"k": "computed", "r": _leaf("parquet", tb, rg=1), "col": "k",
+                                    "fn": ["copy", "d"]}, [None, ["k", "d"], ["d", "c", "k"], ["k", "c"]]),
+        "computed(mapped(csv))": ({"k": "computed", "col": "is_decoy", "fn": ["const", False],
+                                   "r": {"k": "mapped", "via": "from_path", "r": _leaf("csv", tb, suffix=".psms"),
+                                         "map": [["c", "score"]]}},
+                                  [None, ["score", "is_decoy"], ["is_decoy", "e", "score", "d"], ["e", "d"]]),
+        "joined(computed,mapped)": ({"k": "joined", "rs": [
+            {"k": "computed", "r": _leaf("frame", ta), "col": "k", "fn": ["copy", "a"]},
+            {"k": "mapped", "r": _leaf("parquet", tb, rg=3), "map": [["d", "D"]]}]},
+            [None, ["D", "k", "a"], ["a", "k", "c", "e"], ["k", "D"], ["c", "a"]]),
+        # computed readers nested in each other, under a renaming and over a join
+        "computed(computed(csv))": ({"k": "computed", "col": "k2", "fn": ["copy", "k"], "r": {
+            "k": "computed", "r": _leaf("csv", tb, suffix=".tab"), "col": "k", "fn": ["copy", "c"]}},
+            [None, ["k2", "k", "c"], ["c", "k"], ["e", "d"]]),
+        "mapped(computed(parquet))": ({"k": "mapped", "map": [["k", "K"], ["c", "C"]], "r": {
+            "k": "computed", "r": _leaf("parquet", tb, rg=2), "col": "k", "fn": ["const", 2.5]}},
+            [None, ["K", "C"], ["d", "C"]]),
+        "computed(mapped(joined(computed(frame),csv)))": ({"k": "computed", "col": "top", "fn": ["copy", "K"], "r": {
+            "k": "mapped", "map": [["k", "K"], ["g", "G"]], "r": {"k": "joined", "rs": [
+                {"k": "computed", "r": _leaf("frame", ta), "col": "k", "fn": ["copy", "b"]},
+                _leaf("csv", tc, suffix=".tab")]}}},
+            [None, ["top", "K", "b", "G"], ["G", "a"], ["K", "b", "G"]]),
+    }
+    comps["joined(join_readers;computed:list,computed:series)"] = ({"k": "joined", "via": "join_readers", "rs": [
+        {"k": "computed", "r": _leaf("csv", tb, suffix=".tab"), "col": "k", "fn": ["copy", "d"], "ret": "list"},
+        {"k": "computed", "r": _leaf("parquet", ta, rgs=det_rgs(n, 1)), "col": "k2", "fn": ["const", "x"], "ret": "series"}]},
+        [None, ["k2", "d", "k"], ["a", "k2"]])
+    comps["joined(series-frame,array-frame)"] = ({"k": "joined", "rs": [
+        _leaf("frame", plain_table(["g"], n, 3), ctor="series"), _leaf("frame", plain_table(["h"], n, 1), ctor="array-np"),
+        _leaf("frame", plain_table(["u"], n, 2), ctor="series-name"), _leaf("frame", plain_table(["w"], n, 5), ctor="array-list")]},
+        [None, ["w", "g"], ["h", "u", "g"]])
+    return comps
+
+
+def _label_kinds(n):
+    return {"rev+5": {"index": [n - 1 - j + 5 for j in range(n)]},
+            "gaps": {"index": [2 * j + (j * j) % 2 for j in range(n)]},          # increasing with gaps: a filtered frame
+            "str": {"index": [f"r{j}" for j in range(n)]},
+            "dup": {"index": [j // 2 for j in range(n)]},
+            "rstart": {"rstart": 10},
+            "neg": {"index": [-1 - j for j in range(n)]}}
+
+
+def gen_indexed(ctx):
+    """DataFrameReader over frames whose row labels are NOT 0..n-1 (a filtered / sorted / re-labelled frame): whole read and
+    chunks carry the labels of the rows they hold.  Every frame of a tree has the same labels (pd.concat(axis=1) aligns on
+    them); duplicate labels only without a join."""
+    cases = []
+    for n in range(0, (7 if ctx.thorough else 5)):
+        for lk, lab in _label_kinds(n).items():
+            ta = dict(plain_table(["a", "b"], n), **lab)
+            tb = dict(plain_table(["c", "d"], n, 7), **lab)
+            t1 = dict(plain_table(["g"], n, 3), **lab)
+            fa, fb = _leaf("frame", ta), _leaf("frame", tb)
+            trees = {
+                "frame": (fa, [None, ["b"], ["b", "a"], []]),
+                "frame(series)": (_leaf("frame", t1, ctor="series"), [None, ["g"]]),
+                "mapped(frame)": ({"k": "mapped", "r": fa, "map": [["a", "A"]]}, [None, ["b", "A"]]),
+                "computed(frame,const)": ({"k": "computed", "r": fa, "col": "k", "fn": ["const", True]}, [None, ["k", "a"], ["k"]]),
+                "computed(frame,copy:series)": ({"k": "computed", "r": fa, "col": "k", "fn": ["copy", "b"], "ret": "series"},
+                                                [None, ["k", "b"]]),
+                "computed(mapped(frame),copy:list)": ({"k": "computed", "col": "k", "fn": ["copy", "A"], "ret": "list", "r": {
+                    "k": "mapped", "r": fa, "map": [["a", "A"]]}}, [None, ["A", "k"]]),
+            }
+            if lk != "dup":
+                trees.update({
+                    "joined(one)": ({"k": "joined", "rs": [fa]}, [None, ["b"]]),
+                    "joined(frame,frame)": ({"k": "joined", "rs": [fa, fb]}, [None, ["d", "a"], ["c"], []]),
+                    "joined(computed(frame),mapped(frame))": ({"k": "joined", "rs": [
+                        {"k": "computed", "r": fa, "col": "k", "fn": ["copy", "a"]},
+                        {"k": "mapped", "r": fb, "map": [["d", "D"]]}]}, [None, ["D", "k", "a"]]),
+                })
+            for tl, (rd, reqs) in trees.items():
+                for cols in reqs:
+                    tg = ["row-labels", "labels:" + lk, "tree:" + tl, f"n={n}", "cols=None" if cols is None else f"ncols={len(cols)}"]
+                    cases.append(_case("read", rd, cols, tags=tg))
+                    for c in range(1, n + 2):
+                        cases.append(_case("chunks", rd, cols, c, tags=tg))
+    return cases
+
+
+def gen_repeated(ctx):
+    """a reader is a value: what it answers does not depend on what it was asked before.  The observed request follows
+    other requests on the SAME reader object (whole read, a complete chunked pass, an abandoned chunk iterator, another
+    projection, get_column_names), or the chunk iterator is consumed with next() and the reader is read whole in between."""
+    cases = []
+    rng = ctx.sub("repeated")
+    for n in ((2, 3, 5) if ctx.thorough else (3,)):
+        for label, (rd, reqs) in _small_trees(n).items():
+            for k, cols in enumerate(reqs):
+                other = reqs[(k + 1) % len(reqs)]
+                pres = [("read-all", [["read", None]]), ("chunks-all", [["chunks", 2, None, None]]),
+                        ("abandoned", [["chunks", 1, None, 1]]), ("other-projection", [["read", other], ["chunks", 2, other, None]]),
+                        ("names", [["names"]]), ("same-twice", [["read", cols], ["chunks", n, cols, None]])]
+                if not ctx.thorough:
+                    pres = [pres[(k + j) % len(pres)] for j in (0, 1, 3)] if k else pres
+                for pt, pre in pres:
+                    tg = ["tree:" + label, f"n={n}", "cols=None" if cols is None else f"ncols={len(cols)}"]
+                    base_r = _case("read", rd, cols, tags=tg)
+                    base_c = _case("chunks", rd, cols, rng.choice([1, 2, 2, n]), tags=tg)
+                    if not in_domain(base_r) or any(not in_domain(dict(base_r, cols=op[1] if op[0] == "read" else op[2]))
+                                                    for op in pre if op[0] != "names"):
+                        continue
+                    cases.append(_with_pre(base_r, pre, tag=pt))
+                    cases.append(_with_pre(base_c, pre, tag=pt))
+                cases.append(_with_pre(_case("chunks", rd, cols, 2, tags=["tree:" + label, f"n={n}"]), lazy=True))
+    return cases
+
+
+K_PQ_INDEX = "parquet-reader:stored-pandas-index"
+K_CSV_MIXED = "csv-reader:per-chunk-type-inference"
+K_DICT_ALIAS = "buffered-writer:dicts-buffer-keeps-references"
+K_COMPUTED_FRAME = "computed-reader:read-all-writes-into-wrapped-frame"
+
+
+def gen_finding_streams(ctx):
+    """input classes on which the unchanged /repo is known to break the property (known_findings.json, finding_key)"""
+    cases = []
+    # (1) a Parquet file written by pandas WITH its row labels (df[mask].to_parquet(path))
+    for n in ((0, 1, 2, 3, 5) if ctx.thorough else (0, 3, 4)):
+        for lk, lab in _label_kinds(n).items():
+            if lk in ("dup", "neg", "rev+5") and not ctx.thorough:
+                continue
+            tb = dict(plain_table(["c", "d", "e"], n, 7), **lab)
+            leaf = _leaf("parquet", tb, rg=2, pdindex=lk)
+            trees = {"leaf": (leaf, [None, ["d"], []]),
+                     "mapped(leaf)": ({"k": "mapped", "r": leaf, "map": [["c", "C"]]}, [None, ["e", "C"]]),
+                     "computed(leaf,const)": ({"k": "computed", "r": leaf, "col": "k", "fn": ["const", 7]}, [None, ["k", "d"]])}
+            for tl, (rd, reqs) in trees.items():
+                for cols in reqs:
+                    tg = ["finding-stream", "parquet:stored-pandas-index", "labels:" + lk, "tree:" + tl, f"n={n}"]
+                    cases.append(_case("read", rd, cols, tags=tg))
+                    for c in sorted({1, 2, n + 1}):
+                        cases.append(_case("chunks", rd, cols, c, tags=tg))
+            cases.append({"fn": "names", "reader": leaf, "tags": ["names", "finding-stream", "parquet:stored-pandas-index"]})
+    # (2) a delimited-text column of strings whose first rows look like numbers ("1", "2.5", then "abc")
+    for n in ((2, 3, 4, 6) if ctx.thorough else (3, 4)):
+        for k in range(1, n):
+            col = [["7", "2.5", "11", "0.25", "3"][j % 5] for j in range(k)] + [f"abc{j}" for j in range(k, n)]
+            tab = plain_table(["x", "y"], n)
+            tab = {"names": ["x", "m", "y"], "types": ["i", "s", "f"], "cols": [tab["cols"][0], col, tab["cols"][1]]}
+            leaf = _leaf("csv", tab, suffix=".tab", mixed=["m"])
+            trees = {"leaf": (leaf, [None, ["m"], ["y", "m"]]),
+                     "mapped(leaf)": ({"k": "mapped", "via": "from_path", "r": leaf, "map": [["m", "M"]]}, [None, ["M", "x"]]),
+                     "joined(frame,leaf)": ({"k": "joined", "rs": [_leaf("frame", plain_table(["a"], n)), leaf]}, [["m", "a"]])}
+            for tl, (rd, reqs) in trees.items():
+                for cols in reqs:
+                    tg = ["finding-stream", "csv:numeric-looking-strings-first", "tree:" + tl, f"n={n}", f"numeric-prefix={k}"]
+                    cases.append(_case("read", rd, cols, tags=tg))
+                    for c in range(1, n + 1):
+                        cases.append(_case("chunks", rd, cols, c, tags=tg))
     return cases
 
 
@@ -932,25 +1523,34 @@ class _Names:
         return f"{p}{self.k}"
 
 
-def rand_leaf(rng, n, pool):
+def rand_leaf(rng, n, pool, rich=True):
     ncol = rng.choice([1, 2, 2, 3, 4])
-    tab = mk_table(rng, [pool.fresh() for _ in range(ncol)], n)
+    tab = mk_table(rng, [pool.fresh() for _ in range(ncol)], n, big=rich, nans="fs" if rich else "")
     kind = rng.choice(["frame", "csv", "parquet"])
     if kind == "csv":
-        if rng.random() < 0.3:
-            return _leaf("csv", tab, suffix=".csv", sep=",")
-        return _leaf("csv", tab, suffix=rng.choice([".tab", ".tsv", ".csv", ".peptides", ".pin"]))
+        u = rng.random()
+        if u < 0.4:
+            return _leaf("csv", tab, suffix=rng.choice([".csv", ".tab", ".txt", ".psms"]), sep=rng.choice([",", ",", ";", "|"]))
+        if u < 0.55:
+            return _leaf("csv", tab, suffix=rng.choice(UNKNOWN_SUFFIXES))
+        return _leaf("csv", tab, suffix=rng.choice(ALL_CSV_SUFFIXES))
     if kind == "parquet":
+        if rich and rng.random() < 0.4:
+            return _leaf("parquet", tab, rgs=rand_rgs(rng, n))
         return _leaf("parquet", tab, rg=rng.choice([1, 2, 3, max(1, n), max(1, n // 2), 1000]))
+    if rich and rng.random() < 0.3:
+        tab["dt"] = rng.choice(["object", "narrow"])
+    if ncol == 1 and rng.random() < 0.5:
+        return _leaf("frame", tab, ctor=rng.choice(["series", "series-name", "array-np", "array-list"]))
     return _leaf("frame", tab)
 
 
-def rand_reader(rng, depth, n, pool):
+def rand_reader(rng, depth, n, pool, rich=True):
     if depth <= 0 or rng.random() < 0.25:
-        return rand_leaf(rng, n, pool)
+        return rand_leaf(rng, n, pool, rich)
     k = rng.choice(["mapped", "joined", "joined", "computed"])
     if k == "mapped":
-        inner = rand_reader(rng, depth - 1, n, pool)
+        inner = rand_reader(rng, depth - 1, n, pool, rich)
         names = spec_names(inner)
         m = []
         for nm in names:
@@ -967,14 +1567,20 @@ def rand_reader(rng, depth, n, pool):
             d["via"] = "from_path"
         return d
     if k == "joined":
-        return {"k": "joined", "rs": [rand_reader(rng, depth - 1, n, pool) for _ in range(rng.choice([1, 2, 2, 3]))]}
-    inner = rand_reader(rng, depth - 1, n, pool)
+        d = {"k": "joined", "rs": [rand_reader(rng, depth - 1, n, pool, rich) for _ in range(rng.choice([1, 2, 2, 3]))]}
+        if rng.random() < 0.3:
+            d["via"] = "join_readers"
+        return d
+    inner = rand_reader(rng, depth - 1, n, pool, rich)
     names = spec_names(inner)
     if rng.random() < 0.5:
         fn = ["const", rng.choice([True, False, 7, "decoy", 2.5])]
     else:
         fn = ["copy", rng.choice(names)]
-    return {"k": "computed", "r": inner, "col": pool.fresh("K"), "fn": fn}
+    d = {"k": "computed", "r": inner, "col": pool.fresh("K"), "fn": fn}
+    if rng.random() < 0.4:
+        d["ret"] = rng.choice(["list", "series"])
+    return d
 
 
 def _copy_sources(spec):
@@ -1093,6 +1699,14 @@ def gen_random(ctx):
             cs = {1, n + 1, max(1, n), rng.randint(1, n + 2), rng.randint(1, max(1, n // 2 + 1))}
             for c in sorted(cs):
                 cases.append(_case("chunks", rd, cols, c, tags=tg))
+            if rng.random() < 0.35 and in_domain(cases[-1]):
+                # the same reader object asked something else first (or read whole while its chunks are being consumed)
+                other = rand_request(rng, rd)
+                if in_domain(dict(cases[-1], cols=other)):
+                    pre = rng.choice([[["read", other]], [["chunks", rng.randint(1, n + 1), other, rng.choice([None, 1])]],
+                                      [["read", None], ["names"]], [["chunks", 1, None, 1], ["read", other]]])
+                    base = cases[-1 if rng.random() < 0.6 else -len(cs) - 1]
+                    cases.append(_with_pre(base, pre, lazy=base["fn"] == "chunks" and rng.random() < 0.3, tag="random"))
         if has_computed(rd) and rng.random() < 0.5:
             # columns=None on a tree containing computed readers (root or nested): whole and chunked
             tg = ["random-tree", "root:" + rd["k"], f"depth={depth}", "cols=None", "none-with-computed"]
@@ -1110,7 +1724,7 @@ def gen_malformed(ctx):
     for t in range(nmal):
         n = rng.choice([0, 1, 2, 3, 4, 5, 7])
         pool = _Names()
-        rd = rand_reader(rng, rng.choice([0, 1, 2, 2]), n, pool)
+        rd = rand_reader(rng, rng.choice([0, 1, 2, 2]), n, pool, rich=False)
         cols = rand_request(rng, rd, want_ok=False)
         c = rng.randint(1, n + 2)
         mut = rng.choice(["unknown", "dup", "c0", "uneq", "collide", "fn-len", "fn-short",
@@ -1131,11 +1745,11 @@ def gen_malformed(ctx):
             c = 0
         elif mut == "uneq":
             n2 = max(0, n + rng.choice([-2, -1, 1, 2, 3]))
-            rd = {"k": "joined", "rs": [rd, rand_reader(rng, 1, n2, pool)]}
+            rd = {"k": "joined", "rs": [rd, rand_reader(rng, 1, n2, pool, rich=False)]}
             if rng.random() < 0.5:
                 rd["rs"].reverse()
             if rng.random() < 0.5:
-                rd["rs"].append(rand_leaf(rng, rng.choice([n, n2, 0]), pool))
+                rd["rs"].append(rand_leaf(rng, rng.choice([n, n2, 0]), pool, rich=False))
             cols = rand_request(rng, rd, want_ok=True)
         elif mut == "collide":
             names = spec_names(rd)
@@ -1149,7 +1763,7 @@ def gen_malformed(ctx):
         elif mut == "fn-short":
             rd = {"k": "computed", "r": rd, "col": pool.fresh("K"), "fn": ["short", 5]}
             if rng.random() < 0.5:
-                rd = {"k": "joined", "rs": [rand_leaf(rng, rng.choice([n, 1, 2]), pool), rd]}
+                rd = {"k": "joined", "rs": [rand_leaf(rng, rng.choice([n, 1, 2]), pool, rich=False), rd]}
             cols = rand_request(rng, rd, want_ok=True) or spec_names(rd)
         elif mut == "empty-join":
             rd = {"k": "joined", "rs": []} if rng.random() < 0.5 else {"k": "joined", "rs": [rd, {"k": "joined", "rs": []}]}
@@ -1172,10 +1786,139 @@ def gen_malformed(ctx):
     return cases
 
 
-def _wcase(fn, suffix, b, kind, tab, sizes, tags):
-    return {"fn": fn, "suffix": suffix, "b": b, "kind": kind, "tab": tab, "sizes": list(sizes),
-            "tags": list(tags) + [f"writer:{suffix}", f"kind:{kind}", f"b={b}", f"appends={len(sizes)}",
-                                  "has-empty-append" if 0 in sizes else "no-empty-append"]}
+def _wcase(fn, suffix, b, kind, tab, sizes, tags, v=None):
+    d = {"fn": fn, "suffix": suffix, "b": b, "kind": kind, "tab": tab, "sizes": list(sizes),
+         "tags": list(tags) + [f"writer:{suffix}" if suffix in (".tab", ".csv", ".parquet", ".peptides") else
+                               ("writer:other-known-suffix" if suffix in ALL_CSV_SUFFIXES else "writer:unknown-suffix"),
+                               f"kind:{kind}", f"b={b}" if b < 30 else "b>=30", f"appends={len(sizes)}",
+                               "has-empty-append" if 0 in sizes else "no-empty-append"]}
+    if v:
+        d["v"] = dict(v)
+        d["tags"] += [f"v:{k}={x}" if k != "rc" else "v:read-back-in-chunks" for k, x in sorted(v.items())]
+    if tab.get("dt"):
+        d["tags"].append("dtype:" + tab["dt"])
+    return d
+
+
+def _v_applicable(v, suffix, b, kind, fn, sizes):
+    """does the variation make sense for this writer configuration"""
+    is_pq = suffix == ".parquet"
+    if v.get("sep") and is_pq:
+        return False
+    if v.get("style") == "handoff" and (is_pq or fn != "writer"):
+        return False                                          # a Parquet file cannot be appended to by a second writer
+    if v.get("stale") == "noeol" and is_pq:
+        return False
+    if v.get("idx") and kind != "DataFrame" and v.get("style") != "write":
+        return False
+    if v.get("dt") == "npscalar" and kind != "Dicts":
+        return False
+    if v.get("one_as_list") and kind != "Dicts":
+        return False
+    if v.get("colperm") is not None and (kind == "Records" or v["colperm"] >= len(sizes)):
+        return False
+    if v.get("style") == "write" and v.get("colperm") is not None:
+        return False
+    if v.get("style") == "write" and v.get("alias"):
+        return False
+    return True
+
+
+_VARIATIONS = [
+    {"sep": ","}, {"sep": ";"}, {"sep": "|"}, {"ctypes": "match"}, {"ctypes": "wide"},
+    {"stale": "rows"}, {"stale": "garbage"}, {"stale": "self"}, {"stale": "noeol"},
+    {"style": "explicit"}, {"style": "with-raise"}, {"style": "auto"}, {"style": "handoff"}, {"style": "write"},
+    {"idx": "reset"}, {"idx": "perm"}, {"idx": "str"}, {"idx": "dup"}, {"style": "write", "idx": "perm"},
+    {"dt": "npscalar"}, {"one_as_list": True}, {"alias": True}, {"colperm": 0}, {"colperm": 1}, {"rc": 1}, {"rc": 2}, {"rc": 3},
+]
+
+
+def gen_writer_variants(ctx):
+    """everything about a writer that the append sequence does not say: suffix (all known ones, unknown ones -> delimited
+    text), sep, column_types, what is at the path beforehand, how the writer is driven (with / initialize+finalize /
+    auto_finalize with a second writer fed alternately / header by one writer object and rows through another / write()),
+    row labels and dtypes of the appended frames, numpy scalars in dicts, re-use of the appended object by the caller,
+    columns in another order, reading the finalised file back in chunks, default arguments, column names"""
+    cases = []
+    tab4 = plain_table(["a", "b", "s", "t"], 12)
+    seqs = [(2, 1, 3), (1, 1, 1, 1), (0, 3, 0, 2), (4,), ()]
+    # (a) one variation at a time, systematically
+    for v in _VARIATIONS:
+        for suffix in (".tab", ".parquet"):
+            for b in (0, 2, 3):
+                for kind in KINDS:
+                    if b == 0 and kind != "DataFrame":
+                        continue
+                    for sizes in seqs:
+                        if kind == "Records":
+                            sizes = (1,) * (len(sizes) + 1)
+                        if v.get("style") == "write":
+                            sizes = (sum(sizes),)
+                        if not _v_applicable(v, suffix, b, kind, "writer", sizes):
+                            continue
+                        if not ctx.thorough and kind != "DataFrame" and sizes in ((4,), ()):
+                            continue
+                        cases.append(_wcase("writer", suffix, b, kind, tab4, sizes, ["variation"], v))
+        for kind in KINDS:                                   # BufferedWriter constructed directly
+            sizes = (1, 1, 1, 1, 1) if kind == "Records" else (2, 0, 3)
+            for suffix in (".tab", ".parquet"):
+                if _v_applicable(v, suffix, 2, kind, "buffered", sizes) and v.get("style") != "write":
+                    cases.append(_wcase("buffered", suffix, 2, kind, tab4, sizes, ["variation", "direct-BufferedWriter"], v))
+    # (b) every suffix from_suffix knows, and some it does not know
+    for suffix in ALL_CSV_SUFFIXES + UNKNOWN_SUFFIXES:
+        for b, kind, sizes in ((0, "DataFrame", (2, 1)), (2, "DataFrame", (1, 0, 3)), (3, "Dicts", (1, 2, 1)), (2, "Records", (1, 1, 1))):
+            for v in ({}, {"sep": ","}, {"stale": "rows"}):
+                cases.append(_wcase("writer", suffix, b, kind, tab4, sizes, ["suffixes"], v))
+    # (c) default arguments: BufferedWriter(inner) buffers 1000 rows in a DataFrame; from_suffix(path, columns) does not buffer
+    big = plain_table(["a", "b"], 2300)
+    for suffix in (".tab", ".parquet"):
+        for sizes in ((999, 1, 1), (1000,), (1001, 999, 5), (400, 400, 400, 400), (3, 2), (2300,), (0, 1000, 0, 1)):
+            cases.append(_wcase("buffered", suffix, 1000, "DataFrame", big, sizes, ["defaults", "direct-BufferedWriter"], {"defaults": True}))
+        cases.append(_wcase("writer", suffix, 1000, "Dicts", big, (999, 2, 1000), ["defaults-size"], {}))
+        for sizes in ((2, 1), (0,), ()):
+            cases.append(_wcase("writer", suffix, 0, "DataFrame", tab4, sizes, ["defaults"], {"defaults": True}))
+    # (d) column names that need quoting / look like numbers / collide with pandas' own names
+    rng = ctx.sub("writer-variants")
+    for t in range(40 if ctx.thorough else 12):
+        names = rng.sample(FANCY_NAMES, rng.randint(1, 4))
+        tb = mk_table(rng, names, 7)
+        for suffix, v in ((".tab", {}), (".csv", {"sep": ","}), (".parquet", {}), (".txt", {"sep": ";"})):
+            kind = rng.choice(["DataFrame", "Dicts"])
+            cases.append(_wcase("writer", suffix, rng.choice([0, 2, 3]) if kind == "DataFrame" else rng.choice([2, 3]), kind, tb,
+                                rng.choice([(2, 1, 3), (1, 1, 2), (7,)]), ["fancy-names"], v))
+    # (e) random combinations of variations on random tables and append sequences
+    for t in range(1500 if ctx.thorough else 300):
+        L = rng.randint(0, 8)
+        kind = rng.choice(KINDS)
+        sizes = [1] * L if kind == "Records" else [rng.choice([0, 1, 1, 2, 3, 5, 8]) for _ in range(L)]
+        n = sum(sizes)
+        pool = _Names()
+        tb = mk_table(rng, [pool.fresh() for _ in range(rng.randint(1, 4))], n, nans="f" if kind == "Records" else "fs")
+        if rng.random() < 0.3:
+            tb["dt"] = rng.choice(["object", "narrow"])
+        b = rng.choice([0, 1, 2, 2, 3, 4, 5, 7, 10, n, n + 1, max(2, n - 1)])
+        if kind != "DataFrame" and b <= 1:
+            b = 2
+        suffix = rng.choice([".tab", ".csv", ".parquet", ".parquet", rng.choice(ALL_CSV_SUFFIXES), rng.choice(UNKNOWN_SUFFIXES)])
+        fn = "writer" if rng.random() < 0.8 or b < 1 else "buffered"
+        v = {}
+        for _ in range(rng.choice([1, 2, 2, 3, 4])):
+            cand = dict(rng.choice(_VARIATIONS))
+            if cand.get("alias") and rng.random() < 0.6:
+                continue
+            if cand.get("colperm") is not None:
+                cand["colperm"] = rng.randint(0, max(0, L - 1))
+            if cand.get("rc"):
+                cand["rc"] = rng.randint(1, n + 1)
+            v.update(cand)
+        if v.get("style") == "write":
+            sizes = [n]
+        if not _v_applicable(v, suffix, b, kind, fn, sizes):
+            continue
+        if kind == "Records" and v.get("style") == "write":
+            continue
+        cases.append(_wcase(fn, suffix, b, kind, tb, sizes, ["variation", "random"], v))
+    return cases
 
 
 def gen_writers(ctx):
@@ -1212,7 +1955,7 @@ def gen_writers(ctx):
         sizes = [1] * L if kind == "Records" else [rng.choice([0, 1, 1, 2, 3, 5, 8]) for _ in range(L)]
         n = sum(sizes)
         pool = _Names()
-        tb = mk_table(rng, [pool.fresh() for _ in range(rng.randint(1, 4))], n)
+        tb = mk_table(rng, [pool.fresh() for _ in range(rng.randint(1, 4))], n, nans="f" if kind == "Records" else "fs")
         b = rng.choice([0, 1, 2, 2, 3, 4, 5, 7, 10, n, n + 1, max(2, n - 1)])
         if kind != "DataFrame" and b <= 1:
             b = 2
@@ -1226,6 +1969,9 @@ def gen_writers(ctx):
                 if kind == "Records":
                     sizes = (1,) * len(sizes)
                 cases.append(_wcase("trace", ".tab", b, kind, plain_table(["a", "b", "s"], 12), sizes, ["trace"]))
+                if len(sizes) in (2, 4):
+                    for v in ({"stale": "rows"}, {"sep": ","}, {"stale": "garbage", "sep": ";"}):
+                        cases.append(_wcase("trace", ".csv", b, kind, plain_table(["a", "b", "s"], 12), sizes, ["trace"], v))
     for t in range(60 if ctx.thorough else 15):
         kind = rng.choice(KINDS)
         L = rng.randint(1, 8)
@@ -1244,7 +1990,120 @@ def gen_writers(ctx):
 
 
 def gen(ctx):
-    return gen_exhaustive(ctx) + gen_empty_projection(ctx) + gen_random(ctx) + gen_malformed(ctx) + gen_writers(ctx)
+    return (gen_exhaustive(ctx) + gen_empty_projection(ctx) + gen_indexed(ctx) + gen_repeated(ctx) + gen_random(ctx)
+            + gen_malformed(ctx) + gen_writers(ctx) + gen_writer_variants(ctx) + gen_finding_streams(ctx))
+
+
+# ------------------------------------------------------------------------------------------------ known findings
+def _model_of(c):
+    out = lib.run_driver([encode(c)])[0]
+    return decode(c, lib.Toks(out))
+
+
+def _agrees(c):
+    """model and implementation agree on the (control) case"""
+    try:
+        return bool(same(c, _model_of(c), impl(c)))
+    except Exception:
+        return False
+
+
+def _any_node(spec, pred):
+    if pred(spec):
+        return True
+    k = spec["k"]
+    if k in ("mapped", "computed"):
+        return _any_node(spec["r"], pred)
+    if k == "joined":
+        return any(_any_node(r, pred) for r in spec["rs"])
+    return False
+
+
+def _computed_over_frame(spec):
+    """a computed reader whose wrapped reader hands out the caller's DataFrame itself for columns=None: a
+    DataFrameReader, possibly below further computed readers"""
+    if spec["k"] != "computed":
+        return False
+    r = spec["r"]
+    while r["k"] == "computed":
+        r = r["r"]
+    return r["k"] == "frame"
+
+
+def _reads_all(c):
+    return any(op[0] == "read" and op[1] is None for op in c.get("pre") or []) or (c.get("lazy") and c.get("cols") is None)
+
+
+def _strip_index(c, r):
+    """a reader result without its row labels (and, for get_column_names, without the stored index column)"""
+    r = lib.jsonable(r)
+    if r[0] != "ok":
+        return r
+    if c["fn"] == "names":
+        return ["ok", [x for x in r[1] if x != 99999]]
+    if c["fn"] == "read":
+        return ["ok", r[1][1:]]
+    return ["ok", [ch[1:] for ch in r[1]]]
+
+
+def _mask_cols(c, r, names):
+    """a reader result with the cells of the named columns blanked"""
+    r = lib.jsonable(r)
+    if r[0] != "ok" or c["fn"] == "names":
+        return r
+    ids = _ids(c)
+    drop = {ids.look_name(n) for n in names}
+
+    def f(fr):
+        keep = [k for k, nm in enumerate(fr[1]) if nm not in drop]
+        return [fr[0], fr[1], [[row[k] for k in keep] for row in fr[2]]]
+    return ["ok", f(r[1]) if c["fn"] == "read" else [f(x) for x in r[1]]]
+
+
+def finding_key(c, m, i):
+    """known defects of the pinned tree (known_findings.json); a key is given only when the known defect is ALL that is
+    wrong with the case: the rest of the answer equals the model's, or the same case without the offending ingredient
+    agrees with the model"""
+    i = lib.jsonable(i)
+    fn = c["fn"]
+    if fn in ("read", "chunks", "names"):
+        leaves = list(_walk_tables(c["reader"]))
+        if any(l.get("pdindex") for l in leaves):
+            if m is None:
+                m = _model_of(c)
+            if i[0] == "err":
+                strs = any(isinstance(x, str) for l in leaves for x in (l["tab"].get("index") or []))
+                return K_PQ_INDEX if (i[1] == "TypeError" and strs and fn == "chunks" and lib.jsonable(m)[0] == "ok") else None
+            return K_PQ_INDEX if _strip_index(c, m) == _strip_index(c, i) else None
+        mixed = [n for l in leaves for n in l.get("mixed") or []]
+        if mixed and fn == "chunks":
+            if m is None:
+                m = _model_of(c)
+            renamed = set(mixed) | {b for a, b in _all_maps(c["reader"]) if a in mixed}
+            return K_CSV_MIXED if _mask_cols(c, m, renamed) == _mask_cols(c, i, renamed) else None
+        if (c.get("pre") or c.get("lazy")) and _reads_all(c) and _any_node(c["reader"], _computed_over_frame):
+            ctrl = {k: v for k, v in c.items() if k not in ("pre", "lazy")}
+            return K_COMPUTED_FRAME if _agrees(ctrl) else None
+        return None
+    if fn in ("writer", "buffered"):
+        v = c.get("v") or {}
+        if v.get("alias") and c["kind"] == "Dicts" and c["b"] > 1 and i[0] == "ok":
+            ctrl = dict(c, v={k: x for k, x in v.items() if k != "alias"})
+            n = sum(c["sizes"])
+            if len(i[1]["rows"]) == n and i[1]["index"] == list(range(n)) and _agrees(ctrl):
+                return K_DICT_ALIAS
+    return None
+
+
+def _all_maps(spec):
+    k = spec["k"]
+    if k == "mapped":
+        return [tuple(p) for p in spec["map"]] + _all_maps(spec["r"])
+    if k == "computed":
+        return _all_maps(spec["r"])
+    if k == "joined":
+        return [p for r in spec["rs"] for p in _all_maps(r)]
+    return []
 
 
 # ------------------------------------------------------------------------------------------------ shrinking
@@ -1252,6 +2111,14 @@ def _cut_rows(spec, n):
     spec = copy.deepcopy(spec)
     for leaf in _walk_tables(spec):
         leaf["tab"]["cols"] = [col[:n] for col in leaf["tab"]["cols"]]
+        if leaf["tab"].get("index") is not None:
+            leaf["tab"]["index"] = leaf["tab"]["index"][:n]
+        if leaf.get("rgs") is not None:
+            out, left = [], _nrows(leaf["tab"])
+            for x in leaf["rgs"]:
+                out.append(min(x, left))
+                left -= out[-1]
+            leaf["rgs"] = out + ([left] if left else [])
     return spec
 
 
